@@ -8,7 +8,29 @@ from histcheck import chain_case, run_cases, shrink_case, step_summary, alias_se
 PID = "C01"
 
 
+def multi_hit_then_appends(rng):
+    """one list `$match` hits SEVERAL entries and hands each a container (a flat list of 3, 5, 6 or 7 scalars: room for one
+    more entry in its backing array; or a map); later layers then edit that container in two different entries.  Every entry
+    must keep what only IT was given."""
+    names = ["x", "x", rng.choice(["x", "y"])]
+    base = {"l": [{"name": n, "k": i} for i, n in enumerate(names)], "other": 1}
+    flat = [rng.choice(["a", "b", 1, 2.5, True]) for _ in range(rng.choice([3, 5, 6, 7, 2, 4]))]
+    payload = rng.choice([{"tags": flat}, {"tags": flat, "m": {"q": 1}}, {"m": {"q": [1, 2, 3]}}])
+    first = {"l": [dict({"$match": {"name": "x"}}, **gen.deep(payload))]} if rng.random() < 0.6 else \
+            {"l": [{"$match": {"name": "x"}, "$value": gen.deep(payload)}]}
+    key = "tags" if "tags" in payload else "m"
+    def edit(i, mark):
+        v = [mark] if key == "tags" else {"q": [mark]} if isinstance(payload["m"]["q"], list) else {"z": mark}
+        return {"l": [{"$match": {"k": i}, key: v}]}
+    layers = [base, first, edit(0, "p")]
+    if rng.random() < 0.8:
+        layers.append(edit(1, "q"))
+    return chain_case(layers, tail=("docs", "alias", "outdocs"))
+
+
 def gen_case(rng):
+    if rng.random() < 0.03:
+        return multi_hit_then_appends(rng)
     base = gen.map_tree(rng, depth=rng.randint(2, 4))
     if rng.random() < 0.3:
         base = gen.with_required(rng, base, 0.15)
